@@ -20,6 +20,9 @@ pub struct Case {
     av: Vec<(u16, usize)>,
     flags: u32,
     block: &'static str,
+    /// Some(flags): the same Ntlm object first answers a whole other handshake (negotiate + a challenge with these
+    /// flags and another target-info block); the judged handshake is its second one
+    earlier: Option<u32>,
 }
 
 pub struct C15 {
@@ -77,7 +80,7 @@ impl Prop for C15 {
     fn prepare(&mut self, tier: Tier) -> Result<(), String> {
         let strings = string_alphabet();
         let default_av: Vec<(u16, usize)> = vec![(rn::AV_NB_DOMAIN, 6), (rn::AV_NB_COMPUTER, 6), (rn::AV_DNS_DOMAIN, 18), (rn::AV_DNS_COMPUTER, 18), (rn::AV_TIMESTAMP, 8)];
-        let base = Case { domain: "DOM".into(), user: "user".into(), password: "S3cr3t-pässwörd".into(), via_hash: false, challenge: CHALLENGES[2], nonce: 2, av: default_av.clone(), flags: rn::DEFAULT_FLAGS, block: "base" };
+        let base = Case { domain: "DOM".into(), user: "user".into(), password: "S3cr3t-pässwörd".into(), via_hash: false, challenge: CHALLENGES[2], nonce: 2, av: default_av.clone(), flags: rn::DEFAULT_FLAGS, block: "base", earlier: None };
         let mut cs = vec![base.clone()];
         // strings: one dimension at a time, and all three together; password vs hash
         for s in &strings {
@@ -173,6 +176,21 @@ impl Prop for C15 {
                 }
             }
         }
+        // a second handshake on the same object: every ordered pair of (VERSION, UNICODE) flag sets, both logon kinds
+        let fl = |version: bool, unicode: bool| {
+            let mut flags = rn::F_REQUEST_TARGET | rn::F_SIGN | rn::F_SEAL | rn::F_NTLM | rn::F_ESS | rn::F_TARGET_INFO | rn::F_128 | rn::F_KEY_EXCH;
+            if version {
+                flags |= rn::F_VERSION;
+            }
+            flags | if unicode { rn::F_UNICODE } else { rn::F_OEM }
+        };
+        for (v1, u1) in [(true, true), (true, false), (false, true), (false, false)] {
+            for (v2, u2) in [(true, true), (true, false), (false, true), (false, false)] {
+                for via_hash in [false, true] {
+                    cs.push(Case { flags: fl(v2, u2), via_hash, earlier: Some(fl(v1, u1)), block: "second-handshake-same-object", ..base.clone() });
+                }
+            }
+        }
         self.cases = cs;
         Ok(())
     }
@@ -183,7 +201,7 @@ impl Prop for C15 {
         json!({"idx": idx, "case": self.cases[idx as usize]})
     }
     fn rule(&self) -> String {
-        "cases = (domain, user, password | NT hash, server challenge, client nonce pattern, target-info block, negotiate flags). Strings: class^len for class in {a, é, 日, 😀} x len in {0,1,7,8,15,16,17,31,32,64}, every mixed string of <=3 code points over the four classes, a few practical names; varied one at a time and jointly (full user x domain and password x domain products in thorough); 4 challenges x 3 nonce patterns; every subset of the 9 optional AV ids with the timestamp at first/middle/last (every) position; every permutation of <=4 pairs including the timestamp; value lengths {0,2,16,510}; flags with/without VERSION and UNICODE and neutral bits. Each AUTHENTICATE is verified by the reference MS-NLMP server: field descriptors, NTProofStr, LMv2, key-exchange unwrap, MIC, names; and hash-based == password-based. Non-trivial: every case except the base one.".into()
+        "cases = (domain, user, password | NT hash, server challenge, client nonce pattern, target-info block, negotiate flags). Strings: class^len for class in {a, é, 日, 😀} x len in {0,1,7,8,15,16,17,31,32,64}, every mixed string of <=3 code points over the four classes, a few practical names; varied one at a time and jointly (full user x domain and password x domain products in thorough); 4 challenges x 3 nonce patterns; every subset of the 9 optional AV ids with the timestamp at first/middle/last (every) position; every permutation of <=4 pairs including the timestamp; value lengths {0,2,16,510}; flags with/without VERSION and UNICODE and neutral bits; and a second handshake on the same Ntlm object for every ordered pair of (VERSION, UNICODE) flag sets. Each AUTHENTICATE is verified by the reference MS-NLMP server: field descriptors, NTProofStr, LMv2, key-exchange unwrap, MIC, names; and hash-based == password-based. Non-trivial: every case except the base one.".into()
     }
     fn assumptions(&self) -> Vec<String> {
         vec![
@@ -202,6 +220,15 @@ impl Prop for C15 {
         };
         let hash = rn::nt_hash(&c.password);
         let mut ntlm = if c.via_hash { Ntlm::from_hash(c.domain.clone(), c.user.clone(), &hash) } else { Ntlm::new(c.domain.clone(), c.user.clone(), c.password.clone()) };
+        if let Some(f1) = c.earlier {
+            let cfg1 = ServerCfg { flags: f1, challenge: [0x5a; 8], target_name: "OTHER".into(), av_pairs: vec![(rn::AV_DNS_DOMAIN, av_value(rn::AV_DNS_DOMAIN, 6)), (rn::AV_TIMESTAMP, av_value(rn::AV_TIMESTAMP, 8))] };
+            if let Err(e) = ntlm.create_negotiate_message() {
+                return Outcome::fail("error", "negotiate-error", format!("{:?}", e));
+            }
+            if let Err(e) = ntlm.read_challenge_message(&rn::challenge_message(&cfg1)) {
+                return Outcome::fail("error", "conforming-challenge-rejected", format!("earlier handshake: {:?}", e));
+            }
+        }
         let negotiate = match ntlm.create_negotiate_message() {
             Ok(n) => n,
             Err(e) => return Outcome::fail("error", "negotiate-error", format!("{:?}", e)),
